@@ -42,9 +42,10 @@ def Val.truthy : Val → Bool
 
 def Val.ofBool (b : Bool) : Val := .int (if b then 1 else 0)
 
-/-- static type, as far as the inference rules care: object of a given type, or anything else -/
+/-- static type, as far as the inference rules care: an object type — a plain type `[t]` or a union
+    type, given by the (not yet normalised) list of its components — or anything else -/
 inductive Ty where
-  | obj (t : Nat)
+  | obj (ts : List Nat)
   | other
 deriving DecidableEq, Repr
 
@@ -80,6 +81,11 @@ structure FnDecl where
 structure Schema where
   ptrs : List PtrDecl
   fns : List FnDecl
+  /-- `descs[t]`: all (transitive) strict descendants of object type `t` (`t.descendants(schema)`) -/
+  descs : List (List Nat) := []
+
+/-- the type itself and its descendants: the exact types whose objects belong to `t` -/
+def Schema.lineage (s : Schema) (t : Nat) : List Nat := t :: (s.descs[t]?).getD []
 
 def Schema.ptr? (s : Schema) (p : Nat) : Option PtrDecl := s.ptrs[p]?
 def Schema.fn? (s : Schema) (f : Nat) : Option FnDecl := s.fns[f]?
@@ -90,7 +96,7 @@ def PtrDecl.card (d : PtrDecl) : Cardinality :=
 
 def PtrDecl.tgtTy (d : PtrDecl) : Ty :=
   match d.link with
-  | some t => .obj t
+  | some t => .obj [t]
   | none => .other
 
 /-- a database: typed objects and, per (pointer, source object), the stored targets -/
@@ -103,8 +109,9 @@ def DB.get (db : DB) (p id : Nat) : List Val :=
   | some e => e.2
   | none => []
 
-def DB.extent (db : DB) (t : Nat) : List Val :=
-  (db.objs.filter (fun o => o.2 == t)).map (fun o => Val.obj o.1)
+/-- all objects whose exact type is one of `lin` (a type and its descendants), in database order -/
+def DB.extent (db : DB) (lin : List Nat) : List Val :=
+  (db.objs.filter (fun o => lin.contains o.2)).map (fun o => Val.obj o.1)
 
 /-! ## syntax -/
 
@@ -171,7 +178,7 @@ def eval (sch : Schema) (db : DB) : List Val → Q → List Val
   | env, .var i => match env[i]? with
     | some v => [v]
     | none => []
-  | _, .root t => db.extent t
+  | _, .root t => db.extent (sch.lineage t)
   | env, .path src p =>
     let out := (eval sch db env src).flatMap (followPtr db p)
     match sch.ptr? p with
@@ -229,15 +236,58 @@ structure VarInfo where
 
 abbrev VCtx := List VarInfo
 
+/-- the union type the front-end builds for `a UNION b` (components concatenated; see `normTy`) -/
+def unionTy (a b : Ty) : Ty :=
+  match a, b with
+  | .obj ts, .obj us => if ts == us then .obj ts else .obj (ts ++ us)
+  | _, _ => a
+
+/-- first occurrences -/
+def dedupN : List Nat → List Nat
+  | [] => []
+  | x :: xs => x :: (dedupN xs).filter (· != x)
+
+def insertN (x : Nat) : List Nat → List Nat
+  | [] => [x]
+  | y :: ys => if x ≤ y then x :: y :: ys else y :: insertN x ys
+
+/-- insertion sort -/
+def isortN : List Nat → List Nat
+  | [] => []
+  | x :: xs => insertN x (isortN xs)
+
+/-- identity of an object type: components without duplicates, without any component that is a descendant
+    of another one (`minimize_class_set_by_most_generic`), sorted.  `[t]` is the plain type `t`. -/
+def normTy (sch : Schema) : Ty → Ty
+  | .obj ts =>
+    let d := dedupN ts
+    let m := d.filter (fun t => !d.any (fun u => u != t && ((sch.descs[u]?).getD []).contains t))
+    .obj (isortN m)
+  | .other => .other
+
+/-- `(t,) + tuple(t.descendants(schema))` as keys: a plain type contributes itself and its descendants,
+    a union type only itself (nothing descends from a union type) -/
+def linKeys (sch : Schema) (ty : Ty) : List (List Nat) :=
+  match normTy sch ty with
+  | .obj [t] => (sch.lineage t).map (fun x => [x])
+  | .obj ts => [ts]
+  | .other => []
+
+/-- `types_disjoint` of `__infer_oper_call` for the two operands of a UNION -/
+def typesDisjoint (sch : Schema) (a b : Ty) : Bool :=
+  match a, b with
+  | .obj _, .obj _ => decide ((linKeys sch a ++ linKeys sch b).Nodup)
+  | _, _ => false
+
 def tyOf (sch : Schema) : List Ty → Q → Ty
   | Γ, .var i => match Γ[i]? with
     | some t => t
     | none => .other
-  | _, .root t => .obj t
+  | _, .root t => .obj [t]
   | _, .path _ p => match sch.ptr? p with
     | some d => d.tgtTy
     | none => .other
-  | Γ, .union a _ => tyOf sch Γ a
+  | Γ, .union a b => unionTy (tyOf sch Γ a) (tyOf sch Γ b)
   | Γ, .distinct a => tyOf sch Γ a
   | Γ, .coalesce a _ => tyOf sch Γ a
   | Γ, .ifElse a _ _ => tyOf sch Γ a
@@ -286,8 +336,8 @@ def ptrChain (sch : Schema) : Q → Option (List Nat)
 /-- the pointers `extract_filters` records for a matched side: when the static
     type of the matched expression equals the type of the FILTER subject the
     code takes `id` (here: the empty chain) instead of walking the path -/
-def filterPtrs (resTy lTy : Ty) (ps : List Nat) : List Nat :=
-  if lTy == resTy then [] else ps
+def filterPtrs (sch : Schema) (resTy lTy : Ty) (ps : List Nat) : List Nat :=
+  if normTy sch lTy == normTy sch resTy then [] else ps
 
 /-- `extract_exclusive_filters` ≠ []: some equality filter goes through
     exclusive pointers only (`[]`, the subject itself, stands for `.id`).
@@ -337,18 +387,17 @@ def rootIs (depth : Nat) (q : Q) (d : Option Nat) : Bool :=
   | some i, some l => i < depth && depth - 1 - i == l
   | _, _ => false
 
-/-- the loop over the operands of `std::UNION` in `__infer_oper_call`
-    (`types_disjoint = False`): returns (result, break) -/
-def unionStep (result : MI) (m : MI) : MI × Bool :=
+/-- the loop over the operands of `std::UNION` in `__infer_oper_call`: returns (result, break) -/
+def unionStep (td : Bool) (result : MI) (m : MI) : MI × Bool :=
   if m.info.own.isUnique then
-    if result.info.own.isEmpty || (result.info.disjoint_union && m.info.disjoint_union)
+    if result.info.own.isEmpty || td || (result.info.disjoint_union && m.info.disjoint_union)
     then (m, false) else (.DUPLICATE, true)
   else if m.info.own.isDuplicate then (.DUPLICATE, true)
   else (result, false)
 
-def unionMult (ma mb : MI) : MI :=
-  let r1 := unionStep .EMPTY ma
-  if r1.2 then r1.1 else (unionStep r1.1 mb).1
+def unionMult (td : Bool) (ma mb : MI) : MI :=
+  let r1 := unionStep td .EMPTY ma
+  if r1.2 then r1.1 else (unionStep td r1.1 mb).1
 
 /-- `set(el.value for el in elements)` -/
 def dedupI : List Int → List Int
@@ -430,12 +479,12 @@ def extractFilters (sch : Schema) : VCtx → Ty → Q → List (List Nat × Q)
           else match ptrChain sch l with
             | some ps =>
               if (inferCard sch Γ' r).isSingle
-              then [(filterPtrs resTy (tyOf sch (Γ'.map (·.ty)) l) ps, r)] else []
+              then [(filterPtrs sch resTy (tyOf sch (Γ'.map (·.ty)) l) ps, r)] else []
             | none =>
               match ptrChain sch r with
               | some ps =>
                 if (inferCard sch Γ' l).isSingle
-                then [(filterPtrs resTy (tyOf sch (Γ'.map (·.ty)) r) ps, l)] else []
+                then [(filterPtrs sch resTy (tyOf sch (Γ'.map (·.ty)) r) ps, l)] else []
               | none => []
         | .and_ =>
           if !d.isOp then [] else
@@ -470,7 +519,8 @@ def inferMult (sch : Schema) : VCtx → Option Nat → Q → MI
       (maxMult (inferMultList sch Γ dist es))
   | Γ, dist, .union a b =>
     overrideSingle (unionCardinality [inferCard sch Γ a, inferCard sch Γ b])
-      (unionMult (inferMult sch Γ dist a) (inferMult sch Γ dist b))
+      (unionMult (typesDisjoint sch (tyOf sch (Γ.map (·.ty)) a) (tyOf sch (Γ.map (·.ty)) b))
+        (inferMult sch Γ dist a) (inferMult sch Γ dist b))
   | Γ, dist, .distinct a =>
     overrideSingle (cartesianCardinality [inferCard sch Γ a])
       (if (inferMult sch Γ dist a).isConst .EMPTY then .EMPTY else .UNIQUE)
@@ -565,11 +615,16 @@ def accepts (sch : Schema) : VCtx → Q → Bool
   | _, .root _ => true
   | Γ, .path src p =>
     accepts sch Γ src && (match sch.ptr? p with
-      | some d => tyOf sch (Γ.map (·.ty)) src == .obj d.srcTy
+      | some d => (match tyOf sch (Γ.map (·.ty)) src with
+        | .obj ts => !ts.isEmpty && ts.all (fun t => (sch.lineage d.srcTy).contains t)
+        | .other => false)
       | none => false)
   | Γ, .tuple es => acceptsList sch Γ es
   | Γ, .union a b =>
-    accepts sch Γ a && accepts sch Γ b && tyOf sch (Γ.map (·.ty)) a == tyOf sch (Γ.map (·.ty)) b
+    accepts sch Γ a && accepts sch Γ b
+      && (match tyOf sch (Γ.map (·.ty)) a, tyOf sch (Γ.map (·.ty)) b with
+          | .obj _, .obj _ => true
+          | x, y => x == y)
   | Γ, .distinct a => accepts sch Γ a
   | Γ, .coalesce a b =>
     accepts sch Γ a && accepts sch Γ b && tyOf sch (Γ.map (·.ty)) a == tyOf sch (Γ.map (·.ty)) b
